@@ -1634,7 +1634,7 @@ def rule_t(ctx: Ctx) -> None:
                 if id(st) not in flagged:
                     ctx.ok(f"{f.key}|{norm(st.test)} reported, not used unguarded afterwards", None)
             for st, x, u in bad:
-                ctx.fail(m, u, f.key, u, f"`{norm(u, 40)}` uses `{x}` after `if not {x}: self.raise_error(...)` (line {st.lineno}) fell through: at the WARN / RAISE / IGNORE levels the error is only "
+                ctx.fail(m, u, f.key, u, f"`{norm(u, 40)}` uses `{x}` after `if {norm(st.test, 40)}: self.raise_error(...)` (line {st.lineno}) fell through: at the WARN / RAISE / IGNORE levels the error is only "
                                          f"recorded and this line runs with the missing value")
     ctx.count("reported_missing_values", n)
     ctx.min_instances("reported_missing_values", n, 5)
